@@ -294,6 +294,10 @@ static void check_sequence(const Instance& f, int first_phase, int last_phase, b
     }
   }
   VASSERT(C05, pos == g_seq_len, "nothing is delivered beyond the documented sequence");
+#ifdef VM_INJECT
+  bool paired = true; for (int s = 0; s < VM_NS; ++s) paired = paired && g_inj_mark[s] == 0 && g_own_mark[s] == 0;
+  VASSERT(C05, paired, "every delivery reaches the injected handler and the state's own handler (none without the other)");
+#endif
 }
 static void body_order_update(unsigned cfg) {
   CONFIGURED(f, cfg);
